@@ -1101,8 +1101,9 @@ def run_sequence(ctx, drv, sets, bufsize, sk, flag, cap, label="seq", R=""):
         wf = explore(ctx, drv, ops, rec.snaps, sets, sets_json, bufsize, sk, flag, eff_buf, cap, label, top, big=big, R=R)
         if wf is not None:
             ctx.bump("sequences-wf" if wf else "sequences-not-wf")
-        if R:
-            ctx.bump(f"fresh-root-depth:{R.count('/') + 1}")
+        fresh = [c for c in R.split("/") if c and c != PRE]
+        if fresh:
+            ctx.bump(f"fresh-root-depth:{len(fresh)}")
         if big:
             ctx.bump("sequences-with-large-values")
             if wf is False:
@@ -1115,7 +1116,7 @@ def run_sequence(ctx, drv, sets, bufsize, sk, flag, cap, label="seq", R=""):
         shutil.rmtree(top, ignore_errors=True)
 
 
-def kill_history(ctx, drv, sets1, phase2, bufsize, sk, flag, cap, boundaries=None, R=""):
+def kill_history(ctx, drv, sets1, phase2, bufsize, sk, flag, cap, boundaries=None, R="", npoints=None):
     """two-crash histories: a real (forked) writer runs sets1 and is killed (os._exit, nothing that reached the
     kernel is lost) at a boundary inside its LAST set; a new store on the same directory then performs phase2
     (gets and sets); crash images (power loss) are explored after every operation of the whole history."""
@@ -1134,6 +1135,8 @@ def kill_history(ctx, drv, sets1, phase2, bufsize, sk, flag, cap, boundaries=Non
         bs = list(range(last_begin + 1, len(ops1)))
         if boundaries is not None:
             bs = [b for b in bs if b in boundaries]
+        elif len(bs) > 6:
+            bs = spread(bs, npoints)
         for b in bs:
             ctx._c17_base = len(ctx.oracle_failures)
             base = os.path.join(top, f"h{b}")
@@ -1170,7 +1173,15 @@ def kill_history(ctx, drv, sets1, phase2, bufsize, sk, flag, cap, boundaries=Non
         shutil.rmtree(top, ignore_errors=True)
 
 
-def fault_history(ctx, drv, sets0, target, follow, bufsize, sk, flag, cap, R="", only=None):
+def spread(points, n):
+    """at most n of the points, evenly spread and including the first and the last (all of them if n is None)"""
+    if n is None or len(points) <= n:
+        return list(points)
+    idx = sorted({round(i * (len(points) - 1) / (n - 1)) for i in range(n)})
+    return [points[i] for i in idx]
+
+
+def fault_history(ctx, drv, sets0, target, follow, bufsize, sk, flag, cap, R="", only=None, npoints=None):
     """error paths: the set `target` (last of sets0 + [target]) gets ONE transient OSError at each of its
     file-system operations in turn; the same set is then retried — on the same store object, and on a new store
     object — followed by `follow`; crash images are explored from the fault on.  A set that raised promises
@@ -1189,7 +1200,7 @@ def fault_history(ctx, drv, sets0, target, follow, bufsize, sk, flag, cap, R="",
         eff_buf = bufsize if bufsize is not None else (rec0.default_bufsize or io.DEFAULT_BUFFER_SIZE)
         last_begin = max(i for i, o in enumerate(ops0) if o.startswith("begin:"))
         points = [i for i in range(last_begin + 1, len(ops0)) if ops0[i].split(":")[0] not in ("close", "ret", "begin")]
-        for b in points:
+        for b in (points if only is not None else spread(points, npoints)):
             for mode in ("same-store", "new-store"):
                 if only is not None and (b, mode) != tuple(only):
                     continue
@@ -1220,7 +1231,7 @@ def fault_history(ctx, drv, sets0, target, follow, bufsize, sk, flag, cap, R="",
         shutil.rmtree(top, ignore_errors=True)
 
 
-def schedule_history(ctx, sets0, A, B, bufsize, cap, R="", only=None):
+def schedule_history(ctx, sets0, A, B, bufsize, cap, R="", only=None, npoints=None):
     """two-thread schedules at file-system-call granularity: after sets0, set A runs in its own thread and is
     parked just before each of its file-system operations in turn while set B (another key) runs to completion
     in the main thread; then A is released.  Crash images (Python simulator — the Lean machine is the
@@ -1239,7 +1250,7 @@ def schedule_history(ctx, sets0, A, B, bufsize, cap, R="", only=None):
         ops0 = rec0.ops
         last_begin = max(i for i, o in enumerate(ops0) if o.startswith("begin:"))
         points = [i for i in range(last_begin + 1, len(ops0)) if ops0[i].split(":")[0] not in ("close", "ret", "begin")]
-        for b in points:
+        for b in (points if only is not None else spread(points, npoints)):
             if only is not None and b != only:
                 continue
             ctx._c17_base = len(ctx.oracle_failures)
@@ -1564,7 +1575,7 @@ def run(ctx):
     check_keypaths(ctx)
     drv = Driver("c17") if getattr(ctx, "driver_ok", True) else None
     model_sk = sk
-    cap = 150 if quick else 1500
+    cap = 80 if quick else 1500
     runs = []
     try:
         cdir = common.CORPUS / "C17"
@@ -1576,13 +1587,13 @@ def run(ctx):
                 if c.get("root"):
                     c_root[len(plans)] = c["root"]
                 plans.append(([(k, v) for k, v in c["sets"]], c.get("bufsize")))
-        nseq = 10 if quick else 40
+        nseq = 6 if quick else 40
         for s in range(nseq):
             keys = ctx.rng.choice([KEYS, KEYS[:3], KEYS[3:8], ["a", "q/r/a", "q/r/b"], ["logs/app", "logs\\app", "a"]])
             n = ctx.rng.randrange(2, 6 if quick else 9)
             plans.append((gen_sets(ctx.rng, n, keys), 16 if s % 3 == 2 else None))
         # values around io-buffer / 64 KiB boundaries (crash images sampled, see py_sample_images)
-        for s in range(3 if quick else 12):
+        for s in range(2 if quick else 12):
             keys = ctx.rng.choice([["a", "p/a"], ["b", "q/r/a", "a"]])
             sets = gen_sets(ctx.rng, ctx.rng.randrange(1, 3), keys)
             sets.insert(ctx.rng.randrange(len(sets) + 1), (ctx.rng.choice(keys), gen_big_value(ctx.rng)))
@@ -1618,21 +1629,22 @@ def run(ctx):
                 sets1 = gen_sets(ctx.rng, ctx.rng.randrange(0, 2), keys) + [(k, v2)]
                 phase2 = [(k, v2)] + gen_sets(ctx.rng, 1, ["n/x/b", "n/b"])
             runs += kill_history(ctx, drv, sets1, phase2, 16 if h % 2 else None, model_sk, bool(flag), cap,
-                                 R=ctx.rng.choice([PRE, "r1", PRE + "/r1"]))
+                                 R=ctx.rng.choice([PRE, "r1", PRE + "/r1"]), npoints=4 if quick else None)
         # error paths: one transient OSError at each file-system operation of a set of a new key, then a retry
         for h in range(1 if quick else 4):
             k = ctx.rng.choice(["n/x/a", "n/a", "fresh", "p/new"])
             sets0 = gen_sets(ctx.rng, ctx.rng.randrange(0, 2), ["a", "p/a"])
             follow = gen_sets(ctx.rng, ctx.rng.randrange(0, 2), ["n/x/b", "a"])
             runs += fault_history(ctx, drv, sets0, (k, gen_value(ctx.rng)), follow, 16 if h % 2 else None, model_sk,
-                                  bool(flag), cap, R=ctx.rng.choice([PRE, "r1", PRE + "/r1"]))
+                                  bool(flag), cap, R=ctx.rng.choice([PRE, "r1", PRE + "/r1"]), npoints=4 if quick else None)
         # two-thread schedules: set A (new key) parked before each of its file-system calls while set B completes
         for h in range(2 if quick else 8):
             A = (ctx.rng.choice(["n/x/a", "n/a", "p/new"]), gen_value(ctx.rng))
             sets0 = [("a", gen_value(ctx.rng)), ("p/a", gen_value(ctx.rng))]
             B = [("a", gen_value(ctx.rng)), ("p/a", gen_value(ctx.rng)), (os.path.dirname(A[0]) + "/b", gen_value(ctx.rng)),
                  ("other/b", gen_value(ctx.rng))][(h + ctx.rng.randrange(2)) % 4]
-            schedule_history(ctx, sets0, A, B, None, cap, R=ctx.rng.choice([PRE, "r1", PRE + "/r1"]))
+            schedule_history(ctx, sets0, A, B, None, cap, R=ctx.rng.choice([PRE, "r1", PRE + "/r1"]),
+                             npoints=4 if quick else None)
         small = [r for r in runs if not r.get("big") and not r.get("known")]
         ctx.bump("runs-not-sent-to-kernel-known-finding", len([r for r in runs if r.get("known")]))
         if small:
